@@ -5,6 +5,7 @@
  *   k6_threads --items <file> --script <file> --mode interleave            ops in file order, one thread
  *   k6_threads --items <file> --script <file> --mode solo --only <m>       only manager m exists and runs
  *   k6_threads --items <file> --script <file> --mode threads --seed <n>    one thread per manager, randomised schedule
+ *   k6_threads --initrace <threads> <seconds>                              concurrent creation of private managers
  *   k6_threads --witness [--iters N]                                       imb_get_errno() fall-back probes
  *
  * items : work items in K1 format (K1_FORMAT.md), referenced by 0-based line index.
@@ -30,6 +31,8 @@
 #include <stdint.h>
 #include <stdarg.h>
 #include <pthread.h>
+#include <time.h>
+#include <unistd.h>
 #include <sched.h>
 #include <link.h>
 #include <unistd.h>
@@ -526,6 +529,115 @@ thread_main(void *arg)
         return NULL;
 }
 
+/* ---- concurrent creation / initialisation of private managers ---- */
+/* Every thread allocates, initialises, uses and frees ITS OWN managers in a loop; what a manager looks like right
+ * after alloc_mb_mgr()/init_mb_mgr_*() (feature word, architecture, type, error code) must not depend on what other
+ * threads do at the same time.  The reference is the same loop body executed alone, before the threads start. */
+struct ir_obs {
+        uint64_t feat_alloc, feat_init;
+        int err, arch, type;
+};
+static volatile int ir_stop;
+static struct ir_obs ir_ref[3][4];
+static volatile long ir_rounds, ir_bad;
+static char ir_first[512];
+static pthread_mutex_t ir_mu = PTHREAD_MUTEX_INITIALIZER;
+
+static int
+ir_one(const int init, const uint64_t flags, struct ir_obs *o)
+{
+        IMB_MGR *m = alloc_mb_mgr(flags);
+
+        if (m == NULL)
+                return -1;
+        o->feat_alloc = m->features;
+        if (init == 0)
+                init_mb_mgr_sse(m);
+        else if (init == 1)
+                init_mb_mgr_avx2(m);
+        else
+                init_mb_mgr_avx512(m);
+        o->feat_init = m->features;
+        o->err = m->imb_errno;
+        o->arch = (int) m->used_arch;
+        o->type = (int) m->used_arch_type;
+        free_mb_mgr(m);
+        return 0;
+}
+
+static void *
+ir_worker(void *arg)
+{
+        uint64_t st = (uint64_t) (uintptr_t) arg * 0x9e3779b97f4a7c15ULL + 1;
+
+        while (!ir_stop) {
+                st = st * 6364136223846793005ULL + 1442695040888963407ULL;
+                const int init = (int) ((st >> 33) % 3);
+                const uint64_t flags = (st >> 40) & 3;
+                struct ir_obs o;
+
+                if (ir_one(init, flags, &o) != 0)
+                        continue;
+                __sync_fetch_and_add(&ir_rounds, 1);
+                const struct ir_obs *r = &ir_ref[init][flags];
+
+                if (o.feat_alloc != r->feat_alloc || o.feat_init != r->feat_init || o.err != r->err || o.arch != r->arch ||
+                    o.type != r->type) {
+                        if (__sync_fetch_and_add(&ir_bad, 1) == 0) {
+                                pthread_mutex_lock(&ir_mu);
+                                snprintf(ir_first, sizeof(ir_first),
+                                         "init=%d flags=%llu alone:features=%llx/%llx,errno=%d,arch=%d,type=%d "
+                                         "concurrent:features=%llx/%llx,errno=%d,arch=%d,type=%d",
+                                         init, (unsigned long long) flags, (unsigned long long) r->feat_alloc,
+                                         (unsigned long long) r->feat_init, r->err, r->arch, r->type,
+                                         (unsigned long long) o.feat_alloc, (unsigned long long) o.feat_init, o.err, o.arch,
+                                         o.type);
+                                pthread_mutex_unlock(&ir_mu);
+                        }
+                }
+        }
+        return NULL;
+}
+
+static int
+initrace(const int nthreads, const double secs)
+{
+        pthread_t th[64];
+        struct timespec t0, t;
+
+        for (int i = 0; i < 3; i++)
+                for (uint64_t f = 0; f < 4; f++)
+                        if (ir_one(i, f, &ir_ref[i][f]) != 0)
+                                return 2;
+        /* the reference itself must be reproducible alone */
+        for (int rep = 0; rep < 50; rep++)
+                for (int i = 0; i < 3; i++)
+                        for (uint64_t f = 0; f < 4; f++) {
+                                struct ir_obs o;
+
+                                ir_one(i, f, &o);
+                                if (memcmp(&o, &ir_ref[i][f], sizeof(o)) != 0) {
+                                        printf("IR unstable-alone init=%d flags=%llu\n", i, (unsigned long long) f);
+                                        return 0;
+                                }
+                        }
+        clock_gettime(CLOCK_MONOTONIC, &t0);
+        for (int i = 0; i < nthreads && i < 64; i++)
+                pthread_create(&th[i], NULL, ir_worker, (void *) (uintptr_t) (i + 1));
+        for (;;) {
+                usleep(20000);
+                clock_gettime(CLOCK_MONOTONIC, &t);
+                if ((t.tv_sec - t0.tv_sec) + (t.tv_nsec - t0.tv_nsec) * 1e-9 >= secs || ir_bad)
+                        break;
+        }
+        ir_stop = 1;
+        for (int i = 0; i < nthreads && i < 64; i++)
+                pthread_join(th[i], NULL);
+        printf("IR threads=%d rounds=%ld mismatches=%ld first=%s\n", nthreads, (long) ir_rounds, (long) ir_bad,
+               ir_bad ? ir_first : "-");
+        return 0;
+}
+
 /* ---- witnesses for the imb_get_errno() fall-back ---- */
 static volatile int w_stop;
 static IMB_MGR *wA, *wB;
@@ -656,6 +768,14 @@ main(int argc, char **argv)
                         g_seed = strtoull(argv[++i], NULL, 0);
                 else if (!strcmp(argv[i], "--witness"))
                         do_witness = 1;
+                else if (!strcmp(argv[i], "--initrace") && i + 2 < argc) {
+                        const int nt = atoi(argv[++i]);
+                        const double secs = atof(argv[++i]);
+
+                        setvbuf(stdout, NULL, _IOFBF, 1 << 16);
+                        alarm(120);
+                        return initrace(nt, secs);
+                }
                 else if (!strcmp(argv[i], "--iters") && i + 1 < argc)
                         iters = atol(argv[++i]);
                 else {
